@@ -166,7 +166,7 @@ def make_plan(seed: int, tier: str, index: int) -> dict[str, Any]:
         vv["op"]["abort"] = {"in": f.choice(["InstrumentTrack", "_build_note_events", "NoteEvent.from_parsed",
                                              "SpecialEvent.from_parsed", "TrackEvent.from_parsed"]),
                              "at": f.choice([1, 2, 3, 5, 8, 13]),
-                             "exc": f.choice(["MemoryError", "OSError", "RuntimeError", "KeyError"])}
+                             "exc": f.choice(["MemoryError", "MemoryError", "OSError", "RuntimeError"])}
         schedule = {"mode": "geometric", "seed": 0, "gap": 10**9}  # tracing on, never a switch
     if n_clients > 1:
         schedule = {"mode": "geometric", "seed": sc.getrandbits(32), "gap": sc.choice([3, 10, 30, 200, 1000])}
